@@ -65,14 +65,22 @@ def check_case(case):
         rd = pyx12.x12context.X12ContextReader(pyx12.params.params(), pyx12.error_handler.errh_null(), io.StringIO(text))
         got = []          # (snapshot, tree number or None, [(loop id, identity)], seg_count, line, root id)
         t = 0
+        complaints = []
+
+        def errs_of(sn):
+            for k_ in ('err_isa', 'err_gs', 'err_st', 'err_seg', 'err_ele'):
+                for e_ in getattr(sn, k_, None) or []:
+                    complaints.append((sn.seg_data.get_seg_id(), k_, repr(e_)[:160]))
         for node in rd.iter_segments(lid):
             if node.type == 'loop':
                 t += 1
                 flat = tree_segments(node, [(node.id, id(node))], [])
                 for sn, anc in flat:
                     got.append((x12ref.snapshot(sn.seg_data), t, anc, sn.seg_count, sn.cur_line_number, node.id))
+                    errs_of(sn)
             else:
                 got.append((x12ref.snapshot(node.seg_data), None, None, node.seg_count, node.cur_line_number, None))
+                errs_of(node)
     except Exception as e:
         out.fail(core.exc_bucket(e, 'iter'), 'loop_id=%r: %s' % (lid, core.exc_detail(e)))
         return out
@@ -122,6 +130,11 @@ def check_case(case):
                     out.fail('nesting-instance:%s' % ('merged' if pa[depth][1] == pb[depth][1] else 'split'),
                              'loop_id=%r segments #%d/#%d at depth %d (%s)' % (lid, i - 1, i, depth, pb[depth][0]))
                     return out
+    # a conformant document (generated without value faults) draws no complaint from the context reader either: the
+    # walker behind it is the validator's
+    if not meta.get('value_faults') and complaints:
+        out.fail('conformant-document-draws-error:%s' % complaints[0][0], 'loop_id=%r: %r' % (lid, complaints[:3]))
+        return out
     # line numbers and positions
     pos = 0
     for i, (g, s) in enumerate(zip(got, src)):
@@ -131,7 +144,7 @@ def check_case(case):
         if g[4] != i + 1:
             out.fail('line-number', 'loop_id=%r segment #%d %s: cur_line_number %r' % (lid, i, s.id, g[4]))
             return out
-        if s.id not in ('ISA', 'GS', 'GE', 'IEA', 'SE', 'TA1') and g[3] != pos:
+        if s.id not in ('ISA', 'GS', 'GE', 'IEA', 'TA1') and g[3] != pos:
             out.fail('position-in-set', 'loop_id=%r segment #%d %s: seg_count %r, position %d' % (lid, i, s.id, g[3], pos))
             return out
     return out
